@@ -30,9 +30,11 @@ L += ['', 'Summary of what the seeds changed in the machinery (all recorded abov
       '1 "unexplored branch" turned into a replayed violation (C13_s2, alternative-path coverage loop).', '']
 if matrix:
     allchecks = sorted({c for mx in matrix.values() for c in mx})
-    L += ['Full matrix (every seed against every claimed check, quick tier; `x` = exit 1 with at least one VIOLATION line, `u` = exit 1 with only UNCONFIRMED/crash lines, `.` = exit 0):', '',
+    L += ['Cross matrix (seeds for which the full row was run: every claimed check, quick tier; `x` = exit 1 with at least one VIOLATION line, `u` = exit 1 with only UNCONFIRMED/crash lines, `.` = exit 0):', '',
           '| seed | ' + ' | '.join(allchecks) + ' |', '|---|' + '---|' * len(allchecks)]
     for m in metas:
+        if m['id'] not in matrix:
+            continue
         row = []
         for c in allchecks:
             r = matrix.get(m['id'], {}).get(c)
